@@ -161,7 +161,7 @@ def run_queries(yp, E, case, exc_obj):
             end = 'raised RecursionError'
         except BaseException as e:
             end = 'raised %s' % type(e).__name__
-            same = e is exc_obj
+            same = next((i for i, o in enumerate(exc_obj) if e is o), None)      # which predicate's exception object it is
             # the traceback keeps the frames the exception went through alive, and with them the suspended unify
             # generators of their for loops (CPython): the consumer drops it before looking at the variables
             e.__traceback__ = None
@@ -180,7 +180,7 @@ def run_queries(yp, E, case, exc_obj):
 def impl(case):
     from yldprolog import compiler, engine as E
     res = {}
-    exc_obj = Boom('raised by the Python predicate')
+    exc_obj = [Boom('raised by Python predicate %d' % i) for i in range(len(case['native']))]
     num = numbered(case)
     facts = fact_preds(num)
     for which in ('B', 'A'):
@@ -196,9 +196,10 @@ def impl(case):
         for name, ts in case['dyn']:
             yp.assert_fact(yp.atom(name), build_fact(yp, ts))
         log = []
-        def register(spec):
+        def register(i):
+            spec = case['native'][i]
             rows = [row_terms(r) for r in facts.get((spec['name'], spec['arity']), [])]
-            f, ar = make_native(yp, E, spec, rows, exc_obj, log)
+            f, ar = make_native(yp, E, spec, rows, exc_obj[i], log)
             if ar is None:
                 yp.register_function(spec['name'], f)
             else:
@@ -208,11 +209,11 @@ def impl(case):
             if pre is not None:
                 # a first round of queries while only some (or none) of the Python predicates are registered
                 for i in pre:
-                    register(case['native'][i])
+                    register(i)
                 res['A0'] = run_queries(yp, E, case, exc_obj)
-            for i, spec in enumerate(case['native']):
+            for i in range(len(case['native'])):
                 if pre is None or i not in pre:
-                    register(spec)
+                    register(i)
         res[which] = run_queries(yp, E, case, exc_obj)
         if which == 'A':
             res['calls'] = len(log)
@@ -255,7 +256,8 @@ def model_expr_phase(case, natives):
     return '(run_native %d %s %s %s %s %s %d)' % (DEPTH, p_rest, p_full, g_list(nats), gd, g_list(qs), LIMIT)
 
 def view(m):
-    return {'answers': semcheck.canon_answers(m[0]), 'count': m[1], 'err': bool(m[2])}
+    """m[2]: how the model's enumeration ended: ['none'] | ['depth'] | ['unify'] | ['goal'] | ['code'] | ['py', i] (the object raised by Python predicate i)"""
+    return {'answers': semcheck.canon_answers(m[0]), 'count': m[1], 'err': m[2][0] != 'none', 'exn': m[2]}
 
 def anon(x):
     """every variable replaced by one anonymous marker"""
@@ -280,17 +282,19 @@ def compare(case, io, mo):
     if any(m and m[0] == 'stuck' for m in mo):
         return 'model compiler stuck'
     if case.get('pre') is not None:
-        r = compare_phase(case, io['A0'], None, mo[0], [case['native'][i] for i in case['pre']])
+        r = compare_phase(case, io['A0'], None, mo[0], [case['native'][i] for i in case['pre']], case['pre'])
         if r:
             return 'first round (Python predicates %s registered): %s' % ([case['native'][i]['name'] for i in case['pre']], r)
     return compare_phase(case, io['A'], io['B'], mo[-1], case['native'])
 
-def compare_phase(case, ioA, ioB, mo, natives):
+def compare_phase(case, ioA, ioB, mo, natives, tagmap=None):
     raising = any(s.get('raise') is not None for s in natives)
     fa = False      # (kept for replays of older runs: the model's findall/3 now renames the cells of each answer apart)
     final = ioB is not None
     for q, a0, b0, m in zip(case['queries'], ioA, ioB if final else ioA, mo):
         mn, mc, mnr = view(m[0]), view(m[1]), view(m[3])
+        if tagmap is not None and mn['exn'][0] == 'py':
+            mn['exn'] = ['py', tagmap[mn['exn'][1]]]      # position in the registered subset -> position in the case
         a, b = a0, b0
         if fa:
             mn, mc, mnr = [dict(v, answers=anon(v['answers'])) for v in (mn, mc, mnr)]
@@ -304,8 +308,9 @@ def compare_phase(case, ioA, ioB, mo, natives):
                     return 'query %s: differs from the model before the model\'s depth limit' % t
                 continue
             if mn['err']:
-                if not a['end'].startswith('raised') or a['answers'] != mn['answers'] or a['count'] != mn['count']:
-                    return 'query %s: the model ends with the exception of the Python predicate after %d answers, the engine %s after %d' % (t, mn['count'], a['end'], a['count'])
+                if not a['end'].startswith('raised') or a['answers'] != mn['answers'] or a['count'] != mn['count'] or \
+                        mn['exn'][0] != 'py' or a['same'] != mn['exn'][1]:
+                    return 'query %s: the model ends with %s after %d answers, the engine %s (object of predicate %s) after %d' % (t, mn['exn'], mn['count'], a['end'], a['same'], a['count'])
                 continue
             if a['end'] not in ('done', 'cap') or a['answers'] != mn['answers'] or (a['end'] == 'done' and a['count'] != mn['count']):
                 return 'query %s: engine differs from the model (%s after %d answers, model %d)' % (t, a['end'], a['count'], mn['count'])
@@ -324,11 +329,15 @@ def compare_phase(case, ioA, ioB, mo, natives):
         if b['answers'] != mc['answers'] or (b['end'] == 'done' and b['count'] != mc['count']):
             return 'query %s: all-compiled engine differs from the model (%d vs %d answers)' % (t, b['count'], mc['count'])
         if mn['err']:
-            # a Python predicate raised: the answers before it, then the exception
+            # a Python predicate raised: the answers before it, then that predicate's exception object
+            if mn['exn'][0] != 'py':
+                return 'query %s: MODEL ends with %s although the world without raising predicates ends normally' % (t, mn['exn'])
             if not a['end'].startswith('raised'):
-                return 'query %s: the model ends with the exception of the Python predicate after %d answers, the engine %s after %d' % (t, mn['count'], a['end'], a['count'])
+                return 'query %s: the model ends with the exception of Python predicate %d after %d answers, the engine %s after %d' % (t, mn['exn'][1], mn['count'], a['end'], a['count'])
             if a['answers'] != mn['answers'] or a['count'] != mn['count']:
                 return 'query %s: answers delivered before the exception differ from the model (%d vs %d)' % (t, a['count'], mn['count'])
+            if a['end'] != 'raised Boom' or a['same'] != mn['exn'][1]:
+                return 'query %s: the consumer got %s (object of predicate %s), the model the object raised by predicate %d' % (t, a['end'], a['same'], mn['exn'][1])
             continue
         if a['end'] not in ('done', 'cap'):
             return 'query %s: engine with Python predicates %s after %d answers; the model finishes normally with %d' % (t, a['end'], a['count'], mn['count'])
@@ -356,7 +365,7 @@ def oracle(case, io):
         if a['end'].startswith('raised') and a['end'] != 'raised RecursionError':
             if not raising:
                 return 'query %s: the engine with Python predicates %s' % (t, a['end'])
-            if a['end'] != 'raised Boom' or not a['same']:
+            if a['end'] != 'raised Boom' or a['same'] is None:
                 return 'query %s: the exception of the Python predicate did not reach the consumer unchanged (%s, same object: %s)' % (t, a['end'], a['same'])
         if not raising and a['end'] in ('done', 'cap') and b['end'] in ('done', 'cap'):
             if a['answers'] != b['answers'] or a['count'] != b['count']:
@@ -505,6 +514,8 @@ def gen(rng, tier):
             specs = [native_spec(rng, k[0], k[1]) for k in s]
             i = rng.randrange(len(specs))
             specs[i]['raise'] = rng.choice([0, 0, 1, 1, 2, 3])
+            if len(specs) > 1 and rng.random() < 0.4:      # two raising predicates: which object arrives?
+                specs[(i + 1) % len(specs)]['raise'] = rng.choice([0, 1, 2])
             cases.append({'clauses': clauses, 'queries': queries, 'dyn': dt, 'native': specs})
     return cases
 
